@@ -10,5 +10,5 @@ run(){ # kind prop patch expect
 export -f run
 ( for d in seeded/*/; do id=$(basename $d); echo "seed ${id%%-*} $d/patch.diff report"; done
   for f in mutants/*/*.patch; do echo "mutant $(basename $(dirname $f)) $f report"; done
-  for f in benign/*/*.patch; do echo "benign $(basename $(dirname $f)) $f silent"; done ) | xargs -P 6 -L 1 bash -c 'run $0 $1 $2 $3'
+  for f in benign/*/*.patch; do echo "benign $(basename $(dirname $f)) $f silent"; done ) | xargs -P 10 -L 1 bash -c 'run $0 $1 $2 $3'
 echo "regress done"
